@@ -300,10 +300,13 @@ pub fn trace_worlds() -> bool {
 /// Announce a world before running it (only in trace mode).
 pub fn announce_world(json: impl FnOnce() -> String) {
     if trace_worlds() {
-        let stdout = std::io::stdout();
-        let mut o = stdout.lock();
-        let _ = writeln!(o, "WORLD {}", json());
-        let _ = o.flush();
+        let line = json();
+        crate::seams::harness_print(|| {
+            let stdout = std::io::stdout();
+            let mut o = stdout.lock();
+            let _ = writeln!(o, "WORLD {line}");
+            let _ = o.flush();
+        });
     }
 }
 
